@@ -359,7 +359,7 @@ pub fn run(ctx: &Ctx) -> i32 {
         tier,
         seed: ctx.seed,
         level: "exploration",
-        rule: "scenario = 3-5 real Networks (+ optionally an impostor endpoint replaying the expected peer's certificate) on the fabric; 3-10 racing dials (pinned with right/wrong identity, unpinned, to the impostor, and a 'forbidden pair' that is only ever dialed with a wrong pin) under a seeded handshake-window fault pattern (drop rules on long-header packets, on the first 1-RTT datagrams, or random loss); oracle = ground-truth owner of the dialed fabric address vs. returned identity, membership of the returned peer in the caller's connected set during the call (snapshot+timestamped events), and absence of any listing/event/handler entry between parties that only met through a mismatching dial; distinct by (fault class, impostor, outcome mix)".into(),
+        rule: "scenario = 3-5 real Networks (+ optionally an impostor endpoint replaying the expected peer's certificate) on the fabric; 3-10 racing dials (pinned with right/wrong identity, unpinned, to the impostor, and a 'forbidden pair' that is only ever dialed with a wrong pin) under a seeded handshake-window fault pattern (drop rules on long-header packets, on the first 1-RTT datagrams, or random loss); oracle = ground-truth owner of the dialed fabric address vs. returned identity, membership of the returned peer in the caller's connected set during the call (snapshot+timestamped events), and absence of any listing/event/handler entry between parties that only met through a mismatching dial; distinct by (fault class, impostor, outcome mix) Dials include self-dials (the caller's own address; unpinned, pinned to itself, pinned to somebody else).".into(),
         assumptions: vec!["one-hop topologies; no address migration".into()],
         summary,
         extra: Default::default(),
